@@ -1048,7 +1048,7 @@ def build_struct(target_host: str, banner: Optional['Banner'], kex: Optional['SS
                     alg_info["info"] = []
                 alg_info["info"].append(since_text)
         else:
-            alg_info["fail"] = [SSH2_KexDB.FAIL_UNKNOWN]
+            alg_info["warn"] = ['unknown algorithm']  # Rated as in the text report, which the exit status follows.
 
         return alg_info
 
